@@ -11,6 +11,7 @@ import (
 
 	grammar "github.com/acekingke/yaccgo/Grammar"
 	graph "github.com/acekingke/yaccgo/Graph"
+	symbol "github.com/acekingke/yaccgo/Symbol"
 
 	utils "github.com/acekingke/yaccgo/Utils"
 )
@@ -188,6 +189,9 @@ func (lalr *LALR1) CaclIncludeRelation(tr int) []Relation {
 		for Dot, sycheck := range r.RighPart {
 			if sy == sycheck && lalr.seqenceCanEpsilon(r.RighPart[Dot+1:]) {
 				for _, q := range lalr.fechStateNumber(index) {
+					if end, ok := lalr.walk(q, r.RighPart[:Dot]); !ok || end != lalr.trans[tr].q {
+						continue
+					}
 					if to_index, err := lalr.fetchTransIndex(q, int(LeftSy.ID)); err == nil {
 						res = append(res, Relation{x: tr, y: to_index})
 					}
@@ -197,6 +201,18 @@ func (lalr *LALR1) CaclIncludeRelation(tr int) []Relation {
 		}
 	}
 	return res
+}
+
+// walk follows the goto edges labelled by syms starting at state.
+func (lalr *LALR1) walk(state int, syms []*symbol.Symbol) (int, bool) {
+	for _, sy := range syms {
+		gt := lalr.G.LR0.LR0Closure[state].FindItemClosure(sy)
+		if gt == nil {
+			return 0, false
+		}
+		state = gt.ItemCl
+	}
+	return state, true
 }
 
 // calc all the relation
@@ -221,7 +237,9 @@ func (lalr *LALR1) CalcLookbacks() []Relation {
 			SyIndex := lalr.trans[tr_2].sym_or_rule
 			if SyIndex == leftPart.ID {
 				// trIndex lookback tr2
-				res = append(res, Relation{x: trIndex, y: tr_2})
+				if end, ok := lalr.walk(lalr.trans[tr_2].q, lalr.G.ProductoinRules[ruleIndex].RighPart); ok && end == tr.q {
+					res = append(res, Relation{x: trIndex, y: tr_2})
+				}
 			}
 		}
 	}
